@@ -302,8 +302,35 @@ let h_hwload args = match args with
     [L [A "model"; res]]
   | _ -> bad "hwload args"
 
+
+(* flow: units ((name width (caps...))...), edges ((u v)...), capability, out ports, in ports of the capability.
+   Returns the analysis graph after _aug_out_ports / split_nodes / _dist_edge_caps (node order with widths,
+   adjacency in order, capacities), the sink, the per-port outcome of the flow query, and the verdict of
+   the abstract Loader.chk_flow on the same arguments. *)
+let enc_flow_res r = A (match r with FlowError -> "error" | FlowUnbounded -> "unbounded" | FlowZero -> "zero" | FlowPositive -> "positive")
+let h_flow args = match args with
+  | units :: es :: cap :: outs :: ins :: _ ->
+    let us = dec_list (fun x -> match x with
+        | L [n; w; caps] -> (dec_cstr n, { a_width = dec_nat w; a_caps = dec_list dec_cstr caps; a_rl = false; a_wl = false; a_mem = [] })
+        | _ -> bad "flow unit") units in
+    let es = dec_list (fun x -> match x with L [u; v] -> (dec_cstr u, dec_cstr v) | _ -> bad "flow edge") es in
+    let g0 = List.fold_left (fun g (n, _) -> add_node g n) g_empty us in
+    let g = List.fold_left (fun g (u, v) -> add_edge g u v) g0 es in
+    let cap = dec_cstr cap and outs = dec_list dec_cstr outs and ins = dec_list dec_cstr ins in
+    let ((a, _), t) = flow_setup g us cap outs in
+    let nodes = enc_list (fun n -> L [enc_cstr n; enc_nat (assoc O a.ag_w n); enc_list enc_cstr (succs a.ag n)]) a.ag.g_nodes in
+    let caps = enc_list (fun (u, (v, c)) -> L [enc_cstr u; enc_cstr v; enc_nat c]) a.ag_cap in
+    let flows = enc_list (fun (p, r) -> L [enc_cstr p; enc_flow_res r]) (port_flows g us cap outs ins) in
+    let abs_ = match chk_flow g us cap outs ins with
+      | None -> A "ok" | Some (EBlockedCap (c, p)) -> L [A "blocked"; enc_cstr c; enc_cstr p] | Some _ -> A "other" in
+    let det = match chk_flow_detailed g us cap outs ins with
+      | FlowOk -> A "ok" | FlowBlocked (c, p) -> L [A "blocked"; enc_cstr c; enc_cstr p]
+      | FlowCrash (p, r) -> L [A "crash"; enc_cstr p; enc_flow_res r] in
+    [L [A "model"; L [nodes; caps; enc_cstr t; flows; abs_; det]]]
+  | _ -> bad "flow args"
+
 let handlers : (Stdlib.String.t * (sx list -> sx list)) list = [
-  ("hwload", h_hwload);
+  ("hwload", h_hwload); ("flow", h_flow);
   ("sim", h_sim); ("loader", h_loader); ("mkproc", h_mkproc); ("icase", h_icase); ("bag", h_bag);
   ("regq", h_regq); ("parse", h_parse); ("isa", h_isa); ("abilities", h_abilities);
   ("table", h_table); ("pipeline", h_pipeline);
